@@ -211,8 +211,20 @@ func (m *Muxer) isAnimated() bool {
 }
 
 // needsVP8X returns true if the file requires the extended format header.
+// A separate ALPH chunk can only be stored next to the VP8 chunk in the
+// extended format, so a frame carrying one forces VP8X as well.
 func (m *Muxer) needsVP8X() bool {
-	return m.isAnimated() || m.iccData != nil || m.exifData != nil || m.xmpData != nil
+	return m.isAnimated() || m.iccData != nil || m.exifData != nil || m.xmpData != nil || m.hasAlphaChunk()
+}
+
+// hasAlphaChunk reports whether any frame's data is prefixed with an ALPH chunk.
+func (m *Muxer) hasAlphaChunk() bool {
+	for _, f := range m.frames {
+		if alphaData, _ := splitAlphaAndBitstream(f.data); alphaData != nil {
+			return true
+		}
+	}
+	return false
 }
 
 // Assemble writes the complete WebP file to w.
@@ -271,15 +283,11 @@ func (m *Muxer) validate() error {
 // For VP8L: the header indicates alpha presence.
 // For VP8: alpha is present if the frame data is prefixed with an ALPH chunk.
 func (m *Muxer) hasAlpha() bool {
+	if m.hasAlphaChunk() {
+		return true
+	}
 	for _, f := range m.frames {
 		data := f.data
-		// Check if the data starts with an ALPH chunk header.
-		if len(data) >= 12 {
-			possibleID := binary.LittleEndian.Uint32(data[0:4])
-			if possibleID == FourCCALPH {
-				return true
-			}
-		}
 		// Check VP8L header for alpha flag.
 		if len(data) >= 5 && data[0] == container.VP8LMagicByte {
 			_, _, alpha, err := parseVP8LDimensions(data)
@@ -381,7 +389,8 @@ func (m *Muxer) assembleExtended(w io.Writer) error {
 				riffPayload64++
 			}
 		} else {
-			riffPayload64 += uint64(chunkTotalSize(uint32(len(f.data))))
+			// Still image: optional ALPH chunk followed by the VP8/VP8L chunk.
+			riffPayload64 += uint64(subChunkSize(f.data))
 		}
 	}
 
@@ -447,7 +456,13 @@ func (m *Muxer) assembleExtended(w io.Writer) error {
 				return err
 			}
 		} else {
-			if err := writeDataChunk(w, detectBitstreamType(f.data), f.data); err != nil {
+			alphaData, bitstream := splitAlphaAndBitstream(f.data)
+			if alphaData != nil {
+				if err := writeDataChunk(w, FourCCALPH, alphaData); err != nil {
+					return err
+				}
+			}
+			if err := writeDataChunk(w, detectBitstreamType(bitstream), bitstream); err != nil {
 				return err
 			}
 		}
